@@ -959,6 +959,202 @@ example :
     shouldSkip (configure opts) "/t".toList = true ∧ shouldSkip (configure opts) "/admin/x".toList = true ∧
     shouldSkip (configure opts) "/x".toList = false ∧ skipFuncCalled (configure opts) "/x".toList = true ∧
     skipFuncCalled (configure opts) "/t".toList = false ∧ (configure opts).durationMs = 5 := by decide
+/-! ### transparency: without a deadline and without a client cancel the middleware changes nothing -/
+
+/-- the observation of a program executed straight through (no second goroutine, no guard), as a function of the
+    response so far — what `runSkipped` computes, without the machine state around it -/
+def seqObs : Nat → List HAct → Ctx → Option Chunk → List Chunk → TObs
+  | _, [], _, st, b =>
+    { status := st, body := b, escaped := false, releasedEarly := false, hPanicked := false, recovered := false }
+  | d+1, _ :: r, c, st, b => seqObs d r c st b
+  | 0, .write :: r, c, st, b => seqObs 0 r c (st.or (some .h)) (b ++ [.h])
+  | 0, .panic _ :: _, _, st, b =>
+    { status := st.or (some .rec500), body := b ++ [.rec500], escaped := false, releasedEarly := false,
+      hPanicked := true, recovered := true }
+  | 0, .fireDl :: r, c, st, b => seqObs 0 r (if c = .live then .deadline else c) st b
+  | 0, .firePc :: r, c, st, b => seqObs 0 r (if c = .live then .cancelled else c) st b
+  | 0, .guard n :: r, c, st, b => seqObs (if c = .live then 0 else n) r c st b
+  | 0, .awaitCtx :: r, c, st, b => seqObs 0 r c st b
+  | 0, .awaitL :: r, c, st, b => seqObs 0 r c st b
+  | 0, .awaitE :: r, c, st, b => seqObs 0 r c st b
+  | 0, .awaitT :: r, c, st, b => seqObs 0 r c st b
+  | 0, .signalH :: r, c, st, b => seqObs 0 r c st b
+  | 0, .awaitRet :: r, c, st, b => seqObs 0 r c st b
+  | 0, .hold :: r, c, st, b => seqObs 0 r c st b
+
+theorem lemma_runSkipped_seqObs (d : Nat) (p : List HAct) (s : St) (h1 : s.panicChan = none) (h2 : s.recovered = none)
+    (h3 : s.releasedEarly = false) : obsOf (runSkipped d p s) = seqObs d p s.ctx s.status s.body := by
+  induction p generalizing d s with
+  | nil => cases d <;> simp [runSkipped, seqObs, obsOf, h1, h2, h3]
+  | cons a r ih =>
+    cases d with
+    | succ k => simp only [runSkipped, seqObs]; exact ih k s h1 h2 h3
+    | zero =>
+      cases a with
+      | write =>
+        simp only [runSkipped, seqObs]
+        rw [ih 0 _ (by simpa [St.write] using h1) (by simpa [St.write] using h2) (by simpa [St.write] using h3)]
+        simp [St.write]
+      | panic v => simp [runSkipped, seqObs, obsOf, St.write, h3]
+      | fireDl => simp only [runSkipped, seqObs]; exact ih 0 _ h1 h2 h3
+      | firePc => simp only [runSkipped, seqObs]; exact ih 0 _ h1 h2 h3
+      | guard n => simp only [runSkipped, seqObs]; exact ih _ s h1 h2 h3
+      | awaitCtx => simp only [runSkipped, seqObs]; exact ih 0 s h1 h2 h3
+      | awaitL => simp only [runSkipped, seqObs]; exact ih 0 s h1 h2 h3
+      | awaitE => simp only [runSkipped, seqObs]; exact ih 0 s h1 h2 h3
+      | awaitT => simp only [runSkipped, seqObs]; exact ih 0 s h1 h2 h3
+      | signalH => simp only [runSkipped, seqObs]; exact ih 0 s h1 h2 h3
+      | awaitRet => simp only [runSkipped, seqObs]; exact ih 0 s h1 h2 h3
+      | hold => simp only [runSkipped, seqObs]; exact ih 0 s h1 h2 h3
+
+/-- no deadline and no cancel can happen: neither the program nor the schedule produces one -/
+def quietProg (p : List HAct) : Prop := ∀ a ∈ p, a ≠ .fireDl ∧ a ≠ .firePc
+def quietSched (s : List Tok) : Prop := ∀ t ∈ s, t ≠ .dl ∧ t ≠ .pc
+
+def InvQ (T : TObs) (s : St) : Prop :=
+  s.ctx = .live ∧ s.timedOut = false ∧ quietProg s.hprog ∧
+  ((s.rpc = .select ∧ s.hDone = false ∧ s.panicChan = none ∧ s.recovered = none ∧ s.releasedEarly = false ∧
+      seqObs 0 s.hprog .live s.status s.body = T) ∨
+   (s.rpc = .select ∧ s.hDone = true ∧ s.recovered = none ∧ obsOf (finishR s) = T) ∨
+   (s.rpc = .returned ∧ s.hDone = true ∧ obsOf s = T))
+
+theorem lemma_quiet_tail {a : HAct} {r : List HAct} (h : quietProg (a :: r)) : quietProg r :=
+  fun x hx => h x (List.mem_cons_of_mem _ hx)
+
+theorem lemma_stepH_invQ (T : TObs) (s : St) (h : InvQ T s) : InvQ T (stepH s) := by
+  obtain ⟨hc, ht, hq, h4⟩ := h
+  rcases h4 with ⟨hr, hd, hp, hrec, hre, hobs⟩ | ⟨hr, hd, hrec, hs⟩ | ⟨hr, hd, ho⟩
+  · cases hprog : s.hprog with
+    | nil =>
+      rw [hprog] at hobs
+      have hstep : stepH s = { s with hDone := true, hGo := true } := by simp [stepH, hd, hprog]
+      rw [hstep]
+      refine ⟨hc, ht, by simpa using hq, Or.inr (Or.inl ⟨hr, rfl, hrec, ?_⟩)⟩
+      rw [← hobs]
+      simp [finishR, hp, obsOf, seqObs, hrec]
+    | cons a r =>
+      rw [hprog] at hobs hq
+      have hq' := lemma_quiet_tail hq
+      have ha := hq a (List.mem_cons_self ..)
+      have keep : ∀ s' : St, s'.ctx = s.ctx → s'.timedOut = s.timedOut → s'.hprog = r → s'.rpc = s.rpc → s'.hDone = s.hDone →
+          s'.panicChan = s.panicChan → s'.recovered = s.recovered → s'.releasedEarly = s.releasedEarly →
+          s'.status = s.status → s'.body = s.body → seqObs 0 r .live s.status s.body = T → InvQ T s' := by
+        intro s' e1 e2 e3 e4 e5 e6 e7 e8 e9 e10 e11
+        exact ⟨by rw [e1]; exact hc, by rw [e2]; exact ht, by rw [e3]; exact hq',
+          Or.inl ⟨by rw [e4]; exact hr, by rw [e5]; exact hd, by rw [e6]; exact hp, by rw [e7]; exact hrec,
+            by rw [e8]; exact hre, by rw [e3, e9, e10]; exact e11⟩⟩
+      have stay : InvQ T s := ⟨hc, ht, by rw [hprog]; exact hq, Or.inl ⟨hr, hd, hp, hrec, hre, by rw [hprog]; exact hobs⟩⟩
+      cases a with
+      | write =>
+        have hstep : stepH s = ({ s with hprog := r, started := true }).write .h := by simp [stepH, hd, hprog, ht]
+        rw [hstep]
+        refine ⟨by simpa [St.write] using hc, by simpa [St.write] using ht, by simpa [St.write] using hq',
+          Or.inl ⟨by simpa [St.write] using hr, by simpa [St.write] using hd, by simpa [St.write] using hp,
+            by simpa [St.write] using hrec, by simpa [St.write] using hre, ?_⟩⟩
+        simpa [St.write, seqObs] using hobs
+      | fireDl => exact absurd rfl ha.1
+      | firePc => exact absurd rfl ha.2
+      | awaitCtx =>
+        have hstep : stepH s = s := by simp [stepH, hd, hprog, hc]
+        rw [hstep]; exact stay
+      | awaitL =>
+        by_cases hx : s.tLogging = true
+        · have hstep : stepH s = { s with hprog := r } := by simp [stepH, hd, hprog, hx]
+          rw [hstep]; exact keep _ rfl rfl rfl rfl rfl rfl rfl rfl rfl rfl (by simpa [seqObs] using hobs)
+        · have hstep : stepH s = s := by simp [stepH, hd, hprog, hx]
+          rw [hstep]; exact stay
+      | awaitE =>
+        by_cases hx : s.tEntered = true
+        · have hstep : stepH s = { s with hprog := r } := by simp [stepH, hd, hprog, hx]
+          rw [hstep]; exact keep _ rfl rfl rfl rfl rfl rfl rfl rfl rfl rfl (by simpa [seqObs] using hobs)
+        · have hstep : stepH s = s := by simp [stepH, hd, hprog, hx]
+          rw [hstep]; exact stay
+      | awaitT =>
+        by_cases hx : s.tWritten = true
+        · have hstep : stepH s = { s with hprog := r } := by simp [stepH, hd, hprog, hx]
+          rw [hstep]; exact keep _ rfl rfl rfl rfl rfl rfl rfl rfl rfl rfl (by simpa [seqObs] using hobs)
+        · have hstep : stepH s = s := by simp [stepH, hd, hprog, hx]
+          rw [hstep]; exact stay
+      | signalH =>
+        have hstep : stepH s = { s with hprog := r, hGo := true } := by simp [stepH, hd, hprog]
+        rw [hstep]; exact keep _ rfl rfl rfl rfl rfl rfl rfl rfl rfl rfl (by simpa [seqObs] using hobs)
+      | awaitRet =>
+        have hstep : stepH s = s := by simp [stepH, hd, hprog, hr]
+        rw [hstep]; exact stay
+      | hold =>
+        have hstep : stepH s = { s with hprog := r } := by simp [stepH, hd, hprog]
+        rw [hstep]; exact keep _ rfl rfl rfl rfl rfl rfl rfl rfl rfl rfl (by simpa [seqObs] using hobs)
+      | panic v =>
+        have hstep : stepH s = { s with hprog := [], panicChan := some v, hDone := true, hGo := true } := by
+          simp [stepH, hd, hprog]
+        rw [hstep]
+        refine ⟨hc, ht, by simp [quietProg], Or.inr (Or.inl ⟨hr, rfl, hrec, ?_⟩)⟩
+        rw [← hobs]
+        simp [finishR, ht, obsOf, seqObs, St.write]
+      | guard n =>
+        have hstep : stepH s = { s with hprog := r } := by simp [stepH, hd, hprog, hc]
+        rw [hstep]; exact keep _ rfl rfl rfl rfl rfl rfl rfl rfl rfl rfl (by simpa [seqObs] using hobs)
+  · have hstep : stepH s = s := by simp [stepH, hd]
+    rw [hstep]; exact ⟨hc, ht, hq, Or.inr (Or.inl ⟨hr, hd, hrec, hs⟩)⟩
+  · have hstep : stepH s = s := by simp [stepH, hd]
+    rw [hstep]; exact ⟨hc, ht, hq, Or.inr (Or.inr ⟨hr, hd, ho⟩)⟩
+
+theorem lemma_stepR_invQ (T : TObs) (waitH : Hooks) (pd : Bool) (s : St) (h : InvQ T s) : InvQ T (stepR waitH pd s) := by
+  obtain ⟨hc, ht, hq, h4⟩ := h
+  rcases h4 with ⟨hr, hd, hp, hrec, hre, hobs⟩ | ⟨hr, hd, hrec, hs⟩ | ⟨hr, hd, ho⟩
+  · have hstep : stepR waitH pd s = s := by simp [stepR, hr, hd, hc]
+    rw [hstep]; exact ⟨hc, ht, hq, Or.inl ⟨hr, hd, hp, hrec, hre, hobs⟩⟩
+  · have hstep : stepR waitH pd s = finishR s := by simp [stepR, hr, hd, hc]
+    rw [hstep]
+    have hf : (finishR s).ctx = s.ctx ∧ (finishR s).timedOut = s.timedOut ∧ (finishR s).hprog = s.hprog ∧
+        (finishR s).rpc = .returned ∧ (finishR s).hDone = s.hDone := by
+      unfold finishR; split <;> (try split) <;> simp [St.write]
+    exact ⟨by rw [hf.1]; exact hc, by rw [hf.2.1]; exact ht, by rw [hf.2.2.1]; exact hq,
+      Or.inr (Or.inr ⟨hf.2.2.2.1, by rw [hf.2.2.2.2]; exact hd, hs⟩)⟩
+  · have hstep : stepR waitH pd s = s := by simp [stepR, hr]
+    rw [hstep]; exact ⟨hc, ht, hq, Or.inr (Or.inr ⟨hr, hd, ho⟩)⟩
+
+/-- **The timeout middleware is transparent when nothing times out.** If neither the program nor the schedule lets
+    the deadline pass or the client go away, then for every interleaving of the two goroutines the request ends —
+    when it ends — exactly as if the chain had been served straight through (`runSkipped`, the path of an exempt
+    request): same status, same body, same recovery. -/
+theorem timeout_transparent_when_quiet (waitH : Hooks) (prog : List HAct) (sched : List Tok)
+    (hp : quietProg prog) (hs : quietSched sched) :
+    (run waitH sched (init prog)).rpc = .returned →
+      obsOf (run waitH sched (init prog)) = obsOf (runSkipped 0 prog (init prog)) := by
+  intro hret
+  rw [lemma_runSkipped_seqObs 0 prog (init prog) rfl rfl rfl]
+  have h0 : InvQ (seqObs 0 prog .live none []) (init prog) :=
+    ⟨rfl, rfl, hp, Or.inl ⟨rfl, rfl, rfl, rfl, rfl, rfl⟩⟩
+  have hstep : ∀ s t, (t ≠ Tok.dl ∧ t ≠ Tok.pc) → InvQ (seqObs 0 prog .live none []) s →
+      InvQ (seqObs 0 prog .live none []) (step waitH s t) := by
+    intro s t ht h
+    cases t with
+    | h => exact lemma_stepH_invQ _ s h
+    | rd => exact lemma_stepR_invQ _ waitH true s h
+    | rc => exact lemma_stepR_invQ _ waitH false s h
+    | dl => exact absurd rfl ht.1
+    | pc => exact absurd rfl ht.2
+  have hfin : ∀ (sched : List Tok) (s : St), quietSched sched → InvQ (seqObs 0 prog .live none []) s →
+      InvQ (seqObs 0 prog .live none []) (run waitH sched s) := by
+    intro sched
+    induction sched with
+    | nil => intro s _ h; exact h
+    | cons t ts ih =>
+      intro s hq h
+      exact ih _ (fun x hx => hq x (List.mem_cons_of_mem _ hx)) (hstep s t (hq t (List.mem_cons_self ..)) h)
+  obtain ⟨_, _, _, h4⟩ := hfin sched (init prog) hs h0
+  rcases h4 with ⟨hr, _⟩ | ⟨hr, _⟩ | ⟨_, _, ho⟩
+  · rw [hr] at hret; cases hret
+  · rw [hr] at hret; cases hret
+  · simpa [init] using ho
+
+example :
+    let prog : List HAct := [.write, .guard 1, .write, .panic 4]
+    quietProg prog ∧ quietSched [.h, .rd, .h, .h, .h, .rc] ∧
+    (run false [.h, .rd, .h, .h, .h, .rc] (init prog)).rpc = .returned ∧
+    (run false [.h, .rd, .h, .h, .h, .rc] (init prog)).body = [.h, .h, .rec500] := by
+  refine ⟨by simp [quietProg], by simp [quietSched], by decide, by decide⟩
 end TimeoutOptions
 
 /-! ## Part 4 — the options of the recovery middleware (`options.go`, `captureStack`) -/
